@@ -2,7 +2,7 @@
 
 Tie: CTLS.modelcheck vs the Lean model `CTLS.modelcheck` (PMC/Model/CTLS.lean).
 """
-from common import all_structures, big_structure, proof_coverage, random_structure, rng_for
+from common import all_structures, big_structure, known_findings, proof_coverage, random_structure, rng_for
 from checks import mc_common
 from gen import formulas as F
 from theorems import get
@@ -61,10 +61,113 @@ def cases_for(res, rng):
     return cases, n_exh
 
 
+def degenerate(rng, t):
+    """replace random and/or nodes / leaves by operators with no or one operand (`Or()`, `And()`, `Or(x)`, `And(x)`)"""
+    if t in ('tt', 'ff') or t[0] == 'ap':
+        r = rng.random()
+        return (rng.choice(['or', 'and']),) if r < 0.35 else ((rng.choice(['or', 'and']), t) if r < 0.5 else t)
+    if t[0] in ('and', 'or') and rng.random() < 0.3:
+        return (t[0],) + tuple(degenerate(rng, c) for c in t[1:rng.choice([1, 2])])
+    return (t[0],) + tuple(degenerate(rng, c) for c in t[1:])
+
+
+def normalise(t):
+    """the arity-respecting formula with the same meaning: Or() = false, And() = true, Or(x) = And(x) = x"""
+    if t in ('tt', 'ff') or t[0] == 'ap':
+        return t
+    cs = tuple(normalise(c) for c in t[1:])
+    if t[0] in ('and', 'or'):
+        if len(cs) == 0:
+            return 'ff' if t[0] == 'or' else 'tt'
+        if len(cs) == 1:
+            return cs[0]
+    return (t[0],) + cs
+
+
+def has_both_empty(t):
+    found = set()
+
+    def go(x):
+        if x in ('tt', 'ff') or x[0] == 'ap':
+            return
+        if x[0] in ('and', 'or') and len(x) == 1:
+            found.add(x[0])
+        for c in x[1:]:
+            go(c)
+    go(t)
+    return len(found) == 2
+
+
+KF_WITNESS = ('and', ('A', ('X', ('or',))), ('A', ('X', ('and',))))
+
+
+def degenerate_stream(res, rng):
+    """Formulas outside the arity hypothesis of `ctls_exact` (programmatic `Or(*[])`): the model, which follows the code,
+    must still agree with the code; the truth is the model's answer on the normalised formula (inside the theorem).
+    A wrong answer on a formula containing both `Or()` and `And()` is the known finding KF-C03-a (both print `()`)."""
+    quick = res.tier == 'quick'
+    small = [K for n in (1, 2) for K in all_structures(n)]
+    cases = [(K, KF_WITNESS) for K in small]
+    for _ in range(400 if quick else 4000):
+        t = degenerate(rng, F.rand_ctls_state(rng, rng.choice([3, 4]), max_temporal=2, qdepth=2))
+        if t != normalise(t) and F.well_formed('CTLS', normalise(t)):
+            cases.append((rng.choice(small) if rng.random() < 0.5 else random_structure(rng, 4), t))
+    impl = [mc_common.norm(x) for x in mc_common.impl_batch([('CTLS', K.succ, K.labs, t, 'obj') for K, t in cases])]
+    from common import lean_batch, sexpr, tree_str
+    raw = [mc_common.norm(x) for x in lean_batch(['CTLS|%s|%s' % (K.enc(), sexpr(t)) for K, t in cases])]
+    truth = [mc_common.norm(x) for x in lean_batch(['CTLS|%s|%s' % (K.enc(), sexpr(normalise(t))) for K, t in cases])]
+    known_live, known_hits, wrong, infidel = False, 0, 0, 0
+    for (K, t), a, m, tr in zip(cases, impl, raw, truth):
+        if a != tr:
+            if has_both_empty(t):
+                known_hits += 1
+                known_live = known_live or t == KF_WITNESS
+                continue
+            wrong += 1
+            if wrong <= 3:
+                res.violation('C03: CTLS.modelcheck(%s) = %s but the formula means %s, on which the model (proved exact) '
+                              'gives %s' % (tree_str(t), a, tree_str(normalise(t)), tr),
+                              {'logic': 'CTLS', 'structure': K.describe(), 'formula_sexpr': sexpr(t), 'impl': a, 'truth': tr})
+        elif a != m:
+            infidel += 1
+            if infidel <= 3:
+                res.violation('C03: on the operand-free/one-operand formula %s the implementation answers %s (correct) and '
+                              'the model %s: correspondence PMC.CTLS.modelcheck vs CTLS.modelcheck no longer checks'
+                              % (tree_str(t), a, m),
+                              {'logic': 'CTLS', 'structure': K.describe(), 'formula_sexpr': sexpr(t), 'impl': a, 'model': m,
+                               'correspondence': 'PMC.CTLS.modelcheck (PMC/Model/CTLS.lean) vs CTLS.modelcheck'}, no_input=True)
+    if known_live:
+        for k in known_findings('C03'):
+            res.known.append('%s: %s' % (k['id'], k['what']))
+    return {'degenerate_arity_cases': len(cases), 'degenerate_known_finding_instances': known_hits,
+            'degenerate_wrong_answers_not_listed': wrong, 'degenerate_model_deviations': infidel}
+
+
 def run(res):
     rng = rng_for('C03')
     cases, n_exh = cases_for(res, rng)
     st = mc_common.run_cases(res, 'CTLS', cases, 'C03')
+    st.update(degenerate_stream(res, rng_for('C03/degenerate')))
+    # static hypotheses of ctls_exact (identifier-style atoms and labels, arity >= 2): decided here per case
+    import re
+    ident = re.compile(r'^[A-Za-z_][A-Za-z0-9_]*$')
+    reserved = {'true', 'false', 'not', 'or', 'and', 'A', 'E', 'X', 'F', 'G', 'U', 'R'}
+
+    def names(t, acc):
+        if t in ('tt', 'ff'):
+            return
+        if t[0] == 'ap':
+            acc.add(t[1])
+            return
+        for c in t[1:]:
+            names(c, acc)
+    inside = 0
+    for K, t, _ in cases:
+        acc = set(l for ls in K.labs for l in ls)
+        names(t, acc)
+        if all(isinstance(n, str) and ident.match(n) and n not in reserved for n in acc) and F.well_formed('CTLS', t):
+            inside += 1
+    st['cases_inside_hypotheses_of_ctls_exact'] = inside
     problems = proof_coverage(res, THEOREMS, MODULES)
     for p in problems:
         res.violation('proof obligation no longer checks: ' + p, {'theorem_or_module': p}, no_input=True)
